@@ -57,7 +57,8 @@ Definition s_strtab : list Z := [47; 47].                                  (* "/
 (* archive_write_ar_header: (state, status, bytes written by the call).
    gnu = ARCHIVE_FORMAT_AR_GNU, otherwise BSD. *)
 Definition ar_header (gnu : bool) (st : ar_state) (e : entry) : ar_state * Z * list Z :=
-  let st := mkAr (ar_remaining st) (ar_padding st) false (ar_has_strtab st) (ar_global st) (ar_strtab st) in
+  (* is_strtab, entry_bytes_remaining and entry_padding are cleared before anything can be refused *)
+  let st := mkAr 0 0 false (ar_has_strtab st) (ar_global st) (ar_strtab st) in
   let size := size_of e in
   match e_path e with
   | None => (st, ST_WARN, [])
